@@ -2,6 +2,8 @@ import Model.GenOrder
 import Driver.Util
 /-! Line protocol for `Model/GenOrder` (area prefix `go_`, stateless).
 
+  go_ reuse <definition>                 -> same      (Parse+Write repeated on ONE generator value, also after a
+                                                      failed Parse, writes what a separate process writes)
   go_ repeat <k>                         -> same      (k generations write identical bytes)
   go_ inproc <definition>                -> same      (generated inside a process that generated other
                                                       definitions before = generated in a process of its own)
@@ -29,6 +31,7 @@ def handle (ws : List String) : String :=
   match ws with
   | ["repeat", _] => "same"
   | "inproc" :: _ => "same"
+  | "reuse" :: _ => "same"
   | "gsort" :: "order" :: rest =>
     match rest.mapM (split2 "/") with
     | some ps =>
